@@ -186,6 +186,7 @@ def check(seed, n):
     violations, seen = [], set()
     dist = {"accepted": 0, "with_diagnostics": 0, "silent_rejects": 0}
     evals = 0
+    hangs = 0
     pairs = list(symbol_pairs()) + list(long_and_large()) + list(huge_literals_everywhere())
     try:
         for k in range(n + len(pairs)):
@@ -204,6 +205,10 @@ def check(seed, n):
             seen.add((text, mode))
             dist["accepted"] += accepted
             dist["with_diagnostics"] += ndiag > 0
+            if problem and "does not return" in problem:
+                hangs += 1
+            if hangs > 3:
+                break        # enough texts on which the front end does not return; waiting for more proves nothing
             if problem:
                 violations.append({"property": "C07", "stream": "frontfuzz", "sig": "ff:" + problem.split(":")[0][:50],
                                    "case": {"text": text, "mode": mode}, "what": "front end on {!r}...{!r}: {}".format(text[:60], text[-40:] if len(text) > 100 else "", problem)})
